@@ -230,22 +230,23 @@ example :
       (apply h3 (.pub "stats" 8)).2 = .published [0] ∧ (apply h3 (.pub "stats" 8)).1.entries = [] := by
   decide
 
-/-- DECLARED DIFFERENCE from tokio (audit 5, E1): `Op.shut` models `Receiver::close()` by a receiver that NEVER READS
-AGAIN.  In the model `recv` on a shut channel returns `rxGone` and delivers nothing (the instance below: `sub; pub;
-shut; recv`); in tokio `close()` keeps the receiver and `try_recv` still pops every buffered value (`Ok(line)` on
-this input; "no messages are lost").  The harness agrees with the model because it parks the shut receiver
-(`shut_rx`) and no op reads it.  Consequence: the clauses "in publication order, each at most once, own id" are NOT
-stated for a backlog drained after `close()`; on a shut channel `got`, `queue`, `sent` are frozen, so
-`got ++ queue = sent` still holds there, and the weakened `MsgInv` clause `(got ++ queue) <+: sent` (which is what
-such a drain would need) is used by no step.  Production never calls `close()` (the control connection DROPS its
-receiver: `Op.close`), so no sender behaviour is outside the model; the hub API beyond that is. -/
+/-- Audit 5, E1 (repaired): `Receiver::close()` loses no message - after `Op.shut` a `recv` still hands out the
+backlog, oldest first, and answers `rxGone` only once it is drained (tokio: `try_recv` pops every buffered value after
+`close()`, then reports `Disconnected`).  The model's `recv` is "closed AND drained ⇒ gone, else pop" - for a DROPPED
+receiver (`Op.close`) the queue is empty, so nothing changes there.  The invariants were proved over this step without
+change (`MsgInv`: on a closed channel `got ++ queue` stays a prefix of `sent` while the backlog moves from `queue` to
+`got`), so "only events of its topic, in publication order, each at most once, own id" (`C20_order_at_most_once`,
+`C20_topic_only`) hold for a backlog drained after `close()` as well.  The harness reads the parked receiver (`shut_rx`) on
+`recv`.  Instance: `sub; pub 7; shut; recv` delivers payload 7 and empties the queue, a second `recv` answers `rxGone`. -/
 example :
     let h0 : Hub := emptyHub fun _ => 1
     let h1 := (apply h0 (.sub "stats" 0)).1
     let h2 := (apply h1 (.pub "stats" 7)).1
     let h3 := (apply h2 (.shut 0)).1
-    (apply h3 (.recv 0)).2 = .rxGone ∧ ((apply h3 (.recv 0)).1.chans 0).queue.length = 1 ∧
-      (h3.chans 0).queue.length = 1 := by
+    let r := apply h3 (.recv 0)
+    (h3.chans 0).queue.length = 1 ∧
+      r.2 = .msg (some { topic := "stats", sub := 0, payload := 7, seq := 0 }) ∧
+      (r.1.chans 0).queue = [] ∧ (r.1.chans 0).got.length = 1 ∧ (apply r.1 (.recv 0)).2 = .rxGone := by
   decide
 
 /-! ## The atomic-op layer (what is compared with the real code) is the small-step semantics -/
